@@ -92,9 +92,13 @@ fn enum_from(
     }
 
     let trait_path = state.trait_path;
+    let (impl_generics, ty_generics, where_clause) = input.generics.split_for_impl();
 
     quote! {
-        impl #trait_path for #input_type {
+        #[allow(deprecated)] // omit warnings on deprecated fields/variants
+        #[allow(unreachable_code)] // omit warnings for `!` and other unreachable types
+        #[automatically_derived]
+        impl #impl_generics #trait_path for #input_type #ty_generics #where_clause {
             type Err = derive_more::FromStrError;
 
             #[inline]
